@@ -211,6 +211,81 @@ def rk_lift(ctx):
                                      (f"{VC}.lift_over_location", "edited image of the location")])
 
 
+def _coding_case(repo, it, S, spec):
+    """coding transcripts: after length-preserving edits (SNVs / MNVs) the new transcript's coding sequence and protein are the
+    reading frame of the original CDS read off the edited reference (same codon positions, same start frame)"""
+    vs, chunk, (exons, cds, sn, start) = spec
+    from .c05 import bases, translate_ref, walker
+    from .c07 import consistent_frames
+    out = []
+    n = 0
+    if chunk:
+        parent = chunk_parent(it, REF, chunk[0], chunk[1], alphabet="NT_STRICT_UNKNOWN")
+    else:
+        parent = chrom_parent(it, REF, alphabet="NT_STRICT_UNKNOWN")
+    F = it.enum("CDSFrame")
+    nm = {0: "ZERO", 1: "ONE", 2: "TWO"}
+    frames = consistent_frames(cds, sn, start)
+    desc = f"coding transcript exons={exons} cds={cds} {sn} frames={frames} with variants {vs} on {'chromosome' if not chunk else 'chunk ' + str(chunk)}"
+    edited = apply_edits(REF, list(vs))
+    codons = walker(list(cds), sn, frames)
+    want = "".join(bases(c, sn, edited) for c in codons)
+    q = "gene.transcript:TranscriptInterval.incorporate_variants"
+    try:
+        objs = [mk_variant(it, s_, e, alt, parent) for s_, e, alt in vs]
+        var = objs[0] if len(objs) == 1 else it.apply(ClassTok("VariantIntervalCollection"), [objs], {"parent_or_seq_chunk_parent": parent}, None, 0)
+        tx = mk_transcript(it, exons, S[sn], cds, [F[nm[x]] for x in frames], parent_or_seq_chunk_parent=parent, transcript_id="tid",
+                           protein_id="pid", sequence_name="chr1")
+    except Raised as ex:
+        return 1, [("construct", f"{desc}: {ex.exc_name}", f"{V}.__init__")]
+    n += 1
+    k, new = run(it, repo.fn(q), [var], {}, tx)
+    cat = f"{'multi' if len(cds) > 1 else 'single'}-block CDS, {sn}, start frame {'0' if start == 0 else 'nonzero'}"
+    if k != "ok":
+        return n, [(f"coding incorporation raises ({cat})", f"{desc}: incorporate_variants raises {new}; expected coding sequence {want!r}", q)]
+    n += 2
+    k2, sv = run(it, repo.fn("gene.transcript:TranscriptInterval.get_cds_sequence"), [], {}, new)
+    got = sv.fields["sequence"] if k2 == "ok" else sv
+    if got != want:
+        out.append((f"coding sequence after incorporation ({cat})", f"{desc}: coding sequence after incorporation is {got!r}; the original reading "
+                    f"frame on the edited reference is {want!r}", "gene.cds:CDSInterval.incorporate_variants"))
+    else:
+        k3, pv = run(it, repo.fn("gene.transcript:TranscriptInterval.get_protein_sequence"), [], {}, new)
+        wp = translate_ref(want, "DEFAULT")
+        gp = pv.fields["sequence"] if k3 == "ok" else pv
+        if gp != wp:
+            out.append((f"protein after incorporation ({cat})", f"{desc}: protein {gp!r}; translation of the edited coding sequence is {wp!r}",
+                        "gene.cds:CDSInterval.incorporate_variants"))
+    for fld in ("transcript_id", "sequence_name"):
+        if new.fields.get(fld) != tx.fields.get(fld):
+            out.append(("identity fields carried over", f"{desc}: {fld} is {new.fields.get(fld)!r} after incorporation", q))
+    ncds = new.fields.get("cds")
+    if isinstance(ncds, Obj) and ncds.fields.get("protein_id") != "pid":
+        out.append(("identity fields carried over", f"{desc}: protein_id is {ncds.fields.get('protein_id')!r} after incorporation", "gene.cds:CDSInterval.incorporate_variants"))
+    return n, out
+
+
+CODING = [([(4, 20)], [(5, 20)], "PLUS"), ([(4, 20)], [(5, 20)], "MINUS"), ([(3, 11), (14, 24)], [(5, 11), (14, 22)], "PLUS"),
+          ([(3, 11), (14, 24)], [(5, 11), (14, 22)], "MINUS"), ([(2, 9), (12, 17), (20, 30)], [(4, 9), (12, 17), (20, 27)], "MINUS")]
+SNVS = [(10, 11, "T"), (6, 7, "G"), (15, 17, "CA"), (21, 22, "A"), (1, 2, "C")]
+
+
+def rk_coding(ctx):
+    specs = []
+    for ch in (None, (1, 36)):
+        for model in CODING:
+            for start in (0, 1, 2):
+                for i, v in enumerate(SNVS):
+                    if ctx.thorough or (i + start) % 2 == 0:
+                        specs.append(((v,), ch, model + (start,)))
+                specs.append(((SNVS[1], SNVS[2]), ch, model + (start,)))
+    ctx.r.floor("C13.RC", "coding incorporation cases", len(specs), 60)
+    from ..par import pmap
+    results = pmap(_runner(ctx.repo, _coding_case), specs)
+    _report(ctx, "C13.RC", results, [("gene.transcript:TranscriptInterval.incorporate_variants", "coding sequence / protein = original reading frame on the edited reference"),
+                                     ("gene.cds:CDSInterval.incorporate_variants", "frames of the new CDS continue the original reading frame")])
+
+
 def r3_round_trip(ctx):
     r, repo = ctx.r, ctx.repo
     it = gene_interp(repo, max_steps=10 ** 10)
@@ -294,6 +369,7 @@ def _refines(skey, gkey):
 RULES = [
     ("C13.RK", rk_sequences),
     ("C13.RL", rk_lift),
+    ("C13.RC", rk_coding),
     ("C13.R3", r3_round_trip),
     ("C13.R4", r4_groupby_sorted),
 ]
